@@ -604,7 +604,7 @@ def strat_coef(stratum, tier):
             trig=st.lists(st.sampled_from(["cos", "sin"]), min_size=D, max_size=D),
             A=gens.nonzero_coef(0.1, 3.0),
             L=gens.st_L(extreme=True),
-            rnd=st.sampled_from([None, 5, 3]),
+            rnd=st.sampled_from([None, 0, 5, 3, 0, 1]),
         )
     )
 
@@ -636,6 +636,7 @@ def check_coef_extraction(case):
     ix = [0] * D
     for c in range(D):
         ix[p[c]] = k[c]
+    co_exact = None
     for rnd in (None, case["rnd"]):
         ok, co = res.lib(
             "get_fourier_coefficients",
@@ -657,6 +658,14 @@ def check_coef_extraction(case):
         ):
             continue
         tol = 1e-12 * abs(A) if rnd is None else 0.5000001 * 10.0 ** (-rnd) * math.sqrt(2)
+        if rnd is None:
+            co_exact = co
+        elif co_exact is not None:
+            # `round=r` returns the coefficients rounded to r decimals - also for r = 0 (whole numbers)
+            wr = np.round(co_exact.real, rnd) + 1j * np.round(co_exact.imag, rnd)
+            close_to_tie = np.abs(np.abs(co_exact.real * 10.0**rnd % 1.0) - 0.5) < 1e-6
+            close_to_tie |= np.abs(np.abs(co_exact.imag * 10.0**rnd % 1.0) - 0.5) < 1e-6
+            res.claim("coef_extraction:is_rounded_to_requested_decimals", float(np.max(np.where(close_to_tie, 0.0, np.abs(co - wr)))), 1e-9 * (1 + abs(A)), key=key + ":round", msg="round=%s" % rnd)
         res.claim(
             "coef_extraction:amplitude" + ("" if rnd is None else ":rounded"),
             abs(co[(0,) + tuple(ix)] - want),
